@@ -368,7 +368,7 @@ const rule = "NormalDist (Mu in +-1e6, Sigma log-uniform 1e-6..1e6) probed at Mu
 	"+-2ulp window of the returned x; Mean/Variance/Bounds; Rand bit-for-bit against the source's NormFloat64 stream and KS " +
 	"distance of 50000 draws below the DKW 1e-9 bound. TDist (V log-uniform 0.1..1e4, laws only up to 1e6) likewise vs " +
 	"gonum mathext's incomplete beta (anchored to closed forms for 1..4 dof). DeltaDist: step, quantile, density, bounds. " +
-	"Non-trivial: some probe has 1e-12<CDF<1-1e-12 or 0<p<1. distinct = different canonical JSON."
+	"Non-trivial: some probe has 1e-12<CDF<1-1e-12 or 0<p<1. distinct = different canonical JSON. Later additions: TDist on the grid V = k/2 (k <= 2000) and every integral V up to 10000."
 
 func drawU(t *rapid.T, label string) float64 {
 	switch rapid.IntRange(0, 7).Draw(t, label+".kind") {
